@@ -25,20 +25,23 @@ MANIFEST = dict(
     text="Lean 4 theorems (XmpProps.C16) over an exact model of libxmp's sequencer kernel (next_order, next_row, update_from_ord_info, "
          "reset_flow, start-up, reposition block, check_end_of_module, ST2.6 step, set_position/next/prev/set_row/seek_time/stop/restart), of the "
          "tick-size arithmetic and of the voice tables of virtual.c: for ALL modules satisfying the monitored well-formedness predicate, ALL "
-         "call histories and ALL effect outcomes inside the monitored EffectRange, every successful frame reports 0<=pos<len, pattern=xxo[pos]<pat, "
-         "speed 1..255, bpm>0, frame time>0, a valid sequence, a non-decreasing loop counter, a whole number of sample frames bounded by the cap, "
-         "0<=virt_used<=maxvoc<=virt_channels; row<rows is proved under the hypothesis that no stale f->num_rows is present (counterexample "
-         "proved and replayed otherwise). Tied to src/player.c, control.c, mixer.c, virtual.c on every run by a field-by-field differential "
-         "correspondence (kernel step, control calls, start-up, ST2.6 step, tick size, every table-changing virtual.c call) and a direct oracle "
-         "on xmp_frame_info that yields replayable failing inputs.",
-    note="Partial: (1) effect interpreters (read_event.c, effects.c, play_channel) are NOT modelled; they enter as arbitrary writes to "
+         "call histories (any arguments) and ALL effect outcomes inside the monitored EffectRange, every successful frame reports 0<=pos<len, "
+         "pattern=xxo[pos]<pat, 0<=row<rows(pattern), speed 1..255, bpm>0, frame time>0 computed from the reported tempo, a valid sequence, a "
+         "non-decreasing loop counter (C16_reachable, C16_reachable_info, C16_loop_monotone_run); for ALL inputs the buffer is a whole number "
+         "of 1/2/4-byte frames, between 8 and XMP_MAX_FRAMESIZE/4 frames, never above XMP_MAX_FRAMESIZE bytes, and within one frame of rate x "
+         "frame time when neither clamp applies (C16_ticksize, C16_framesize_bound, C16_ticksize_agrees); 0<=virt_used<=maxvoc<=virt_channels "
+         "after every history of virtual.c operations (C16_virt, C16_virt_inv, pigeonhole for the NNA relocation proved). Tied to src/player.c, "
+         "control.c, mixer.c, virtual.c on every run by a field-by-field differential correspondence (kernel step, control calls, start-up, "
+         "ST2.6 step, tick size via the real libxmp_mixer_prepare, every table-changing virtual.c call) and a direct oracle on xmp_frame_info "
+         "that yields replayable failing inputs.",
+    note="Partial: (1) effect interpreters (read_event.c, effects.c, play_channel) are NOT modelled; they enter as arbitrary optional writes to "
          "pbreak/jump/jumpline/delay/rowdelay/loop_dest/speed/bpm/gvol/st26 constrained by EffectRange, which the harness monitors on every real "
          "frame. (2) Module data (orders, rows, scan results, xxo_info) enter through the predicate WF evaluated by the Lean driver on every "
          "module played; the scan (scan.c) and the loaders are not modelled. (3) The C computes the tick size in double; the model is exact "
-         "rational arithmetic and the correspondence brackets the rounding. (4) buffer_size <= XMP_MAX_FRAMESIZE is proved only for frame "
-         "time <= 125 ms or 8-bit/mono output and refuted beyond (xmp_set_tempo_factor, MED time factors). (5) 'agrees with rate x frame "
-         "time' is proved between the minimum (8 frames) and maximum frame-size clamps. (6) termination of the order-skipping loop of "
-         "next_order is a hypothesis (result = ok) of the invariant theorems. Correspondence is sampled (differential), not exhaustive.",
+         "rational arithmetic and the correspondence brackets the rounding. (4) 'agrees with rate x frame time' is proved between the minimum "
+         "(8 frames, anticlick) and maximum frame-size clamps, for rates in [XMP_MIN_SRATE, XMP_MAX_SRATE]. (5) termination of the "
+         "order-skipping loop of next_order is a hypothesis (result = ok) of the invariant theorems; the model never diverged on a played "
+         "module. Correspondence is sampled (differential), not exhaustive.",
     technique="Lean 4 invariant proofs by case analysis over the kernel + induction over call histories; differential correspondence "
               "from dumped pre-states; direct oracle on xmp_frame_info",
     design_ref="DESIGN.md section 4 C16/C17",
@@ -46,10 +49,8 @@ MANIFEST = dict(
 
 REQUIRED = [
     "Xmp.Seq.C16_inv_start", "Xmp.Seq.C16_inv_frame", "Xmp.Seq.C16_frame_info", "Xmp.Seq.C16_loop_monotone",
-    "Xmp.Seq.C16_loop_monotone_run", "Xmp.Seq.C16_inv_control", "Xmp.Seq.C16_reachable",
-    "Xmp.Seq.C16_inv_control_partial", "Xmp.Seq.C16_control_counterexample", "Xmp.Seq.C16_reachable_partial",
-    "Xmp.Tick.C16_ticksize", "Xmp.Tick.C16_framesize_bound_partial", "Xmp.Tick.C16_framesize_counterexample",
-    "Xmp.Tick.C16_ticksize_agrees",
+    "Xmp.Seq.C16_loop_monotone_run", "Xmp.Seq.C16_inv_control", "Xmp.Seq.C16_reachable", "Xmp.Seq.C16_reachable_info",
+    "Xmp.Tick.C16_ticksize", "Xmp.Tick.C16_framesize_bound", "Xmp.Tick.C16_ticksize_agrees",
     "Xmp.Virt.C16_virt", "Xmp.Virt.C16_virt_inv",
 ]
 
